@@ -10,6 +10,16 @@
 //! which the Lean model (`proverSchedule` / `verifierSchedule` / `proofLen`) must reproduce from
 //! the dumped constraint-system shape. Oracle: the honest proof verifies, the transcript is
 //! consumed exactly, and prover and verifier absorbed byte-identical elements.
+//!
+//! Argument vectors (module `args`): with the hooked argument log on, the Lagrange vectors the
+//! prover computed (permutation products, compressed and permuted lookup vectors, lookup
+//! products, trash columns) are compared with `permProducts` / `permuteExpressionPair` /
+//! `lookupProduct` / `trashValues` of the Lean model run on the same real table (dumped with its
+//! blinding rows) and the challenges read off the transcript; and the verifier's identities are
+//! evaluated row by row on the logged vectors (oracle: they vanish for an honest witness).
+
+mod args;
+mod rec;
 
 use std::collections::HashMap;
 
@@ -18,7 +28,7 @@ use midnight_circuits::hash::poseidon::PoseidonState;
 use midnight_curves::{Bls12, Fq as F, G1Projective};
 use midnight_proofs::{
     plonk::{
-        commit_to_instances, create_proof, keygen_pk, keygen_vk_with_k, prepare, ProvingKey,
+        commit_to_instances, create_proof, keygen_pk, keygen_vk_with_k, prepare,
     },
     poly::{
         commitment::Guard,
@@ -28,9 +38,9 @@ use midnight_proofs::{
 };
 use mzkh::{
     family::{sample_params, FamCircuit, FamParams, GateKind, LookupKind},
-    recording::{take_log, Event, RecordingTranscript},
     Ctx,
 };
+use rec::{take_log, Event, ValueTranscript as RecordingTranscript};
 use rand::{Rng, SeedableRng};
 use rand_chacha::ChaCha8Rng;
 use serde_json::json;
@@ -49,6 +59,8 @@ fn tokens(ev: &[Event]) -> String {
 }
 
 use mzkh::shape::shape_string;
+
+static CASE_NO: std::sync::atomic::AtomicUsize = std::sync::atomic::AtomicUsize::new(0);
 
 struct Setup {
     params: HashMap<u32, ParamsKZG<Bls12>>,
@@ -72,6 +84,7 @@ fn run_case<H: TranscriptHash>(
     n_proofs: usize,
     extra_k: u32,
     seed: u64,
+    with_args: bool,
 ) where
     F: Hashable<H> + Sampleable<H>,
     G1Projective: Hashable<H>,
@@ -141,6 +154,7 @@ fn run_case<H: TranscriptHash>(
     let inst_refs: Vec<Vec<&[F]>> = insts.iter().map(|cols| cols.iter().map(|c| &c[..]).collect()).collect();
     let inst_refs2: Vec<&[&[F]]> = inst_refs.iter().map(|c| &c[..]).collect();
     take_log();
+    midnight_proofs::plonk::verif_hooks::set_argument_log(with_args);
     let mut tr = RecordingTranscript::<H>::init();
     let res = mzkh::catch(|| {
         create_proof::<F, Scheme, _, _>(
@@ -154,6 +168,8 @@ fn run_case<H: TranscriptHash>(
         )
     });
     let p_events = take_log();
+    let arg_log = midnight_proofs::plonk::verif_hooks::take_argument_log();
+    midnight_proofs::plonk::verif_hooks::set_argument_log(false);
     match res {
         Ok(Ok(())) => {}
         other => {
@@ -164,6 +180,21 @@ fn run_case<H: TranscriptHash>(
     let proof = tr.finalize();
     ctx.case("schedule-prover", true, &format!("schedule P {shape} {cfg}"), &tokens(&p_events));
     ctx.case("prooflen", true, &format!("prooflen {shape} {cfg}"), &proof.len().to_string());
+    // argument vectors: bounded table size (the request lines carry the whole table)
+    let with_args = with_args && k <= if ctx.thorough() { 8 } else { 7 };
+    if with_args {
+        let squeezed: Vec<F> = p_events.iter().filter_map(|e| e.value).collect();
+        match args::split_log(arg_log, pk.get_vk().cs(), n_proofs) {
+            Ok(log) => {
+                let mut arng = ctx.rng(&format!("args{seed}"));
+                for pi in 0..n_proofs.min(2) {
+                    let no = CASE_NO.fetch_add(1, std::sync::atomic::Ordering::SeqCst);
+                    args::emit_proof(ctx, &format!("t{no}"), &pk, k, &log, pi, &squeezed, &mut arng, &desc);
+                }
+            }
+            Err(e) => panic!("argument log does not have the documented layout: {e}"),
+        }
+    }
 
     // verify
     let domain = pk.get_vk().get_domain();
@@ -176,6 +207,7 @@ fn run_case<H: TranscriptHash>(
         insts.iter().map(|cols| cols[fp.n_committed..].iter().map(|c| &c[..]).collect()).collect();
     let plain_refs2: Vec<&[&[F]]> = plain_refs.iter().map(|c| &c[..]).collect();
     let mut vt = RecordingTranscript::<H>::init_from_bytes(&proof);
+    midnight_proofs::plonk::verif_hooks::clear_identity_log();
     let vres = mzkh::catch(|| {
         let guard = prepare::<F, Scheme, _>(pk.get_vk(), &com_refs, &plain_refs2, &mut vt).map_err(|e| format!("{e:?}"))?;
         vt.assert_empty().map_err(|e| format!("trailing: {e:?}"))?;
@@ -183,6 +215,21 @@ fn run_case<H: TranscriptHash>(
     });
     let v_events = take_log();
     ctx.case("schedule-verifier", true, &format!("schedule V {shape} {cfg}"), &tokens(&v_events));
+    {
+        // number of identities the verifier folded with y (hooked log of `vanishing::verifier::verify`)
+        // vs the length of the model's `verifierIds` for this shape
+        let folds = midnight_proofs::plonk::verif_hooks::take_identity_log();
+        let cs = pk.get_vk().cs();
+        let n_polys: usize = cs.gates().iter().map(|g| g.polynomials().len()).sum();
+        if let [f] = &folds[..] {
+            ctx.case(
+                "idcount",
+                true,
+                &format!("idcount np={} g={} s={} l={} t={}", n_proofs, n_polys, args::n_sets(cs), cs.lookups().len(), cs.trashcans().len()),
+                &f.values.len().to_string(),
+            );
+        }
+    }
     ctx.count(&format!("np={n_proofs}"));
     ctx.count(&format!("nc={}", fp.n_committed));
     ctx.count(&format!("k={k}"));
@@ -208,10 +255,63 @@ fn run_case<H: TranscriptHash>(
     }
 }
 
+/// A witness with one altered advice cell: when the cell is a lookup input, `create_proof`
+/// returns `Err(ConstraintSystemFailure)` (from `permute_expression_pair`); the Lean model must
+/// fail in the same way on the logged table. Returns the number of failure cases emitted.
+fn lookup_failure_cases(ctx: &mut Ctx, setup: &mut Setup, fp: &FamParams, seed: u64, max: usize) -> usize {
+    use mzkh::family::FaultKind;
+    let base = FamCircuit::new(fp.clone(), seed);
+    let mut k = 4;
+    let (pk, k) = loop {
+        let params = setup.get(k).clone();
+        match keygen_vk_with_k::<F, Scheme, _>(&params, &base, k) {
+            Ok(vk) => break (keygen_pk(vk, &base).unwrap(), k),
+            Err(_) if k < 10 => k += 1,
+            Err(e) => panic!("keygen failed: {e:?}"),
+        }
+    };
+    let params = setup.get(k).clone();
+    let insts = base.instances();
+    let inst_refs: Vec<&[F]> = insts.iter().map(|c| &c[..]).collect();
+    let cells = base.cell_count.load(std::sync::atomic::Ordering::SeqCst);
+    let mut found = 0;
+    for idx in 0..cells {
+        if found >= max {
+            break;
+        }
+        let mut c = base.clone();
+        c.fault = Some((idx, FaultKind::Random));
+        take_log();
+        midnight_proofs::plonk::verif_hooks::set_argument_log(true);
+        let mut tr = RecordingTranscript::<Blake2bState>::init();
+        let res = mzkh::catch(|| {
+            create_proof::<F, Scheme, _, _>(&params, &pk, &[c], fp.n_committed, &[&inst_refs[..]], ChaCha8Rng::seed_from_u64(seed ^ 0xbeef), &mut tr)
+        });
+        let events = take_log();
+        let log = midnight_proofs::plonk::verif_hooks::take_argument_log();
+        midnight_proofs::plonk::verif_hooks::set_argument_log(false);
+        match res {
+            Ok(Err(midnight_proofs::plonk::Error::ConstraintSystemFailure)) => {
+                let squeezed: Vec<F> = events.iter().filter_map(|e| e.value).collect();
+                let no = CASE_NO.fetch_add(1, std::sync::atomic::Ordering::SeqCst);
+                if args::emit_lookup_failure(ctx, &format!("t{no}"), &pk, k, log, &squeezed) {
+                    found += 1;
+                }
+            }
+            Err(p) => {
+                // a panic of the prover on a non-satisfying witness is not a C01 matter, but record it
+                ctx.count(&format!("faulted-witness-prover-panic:{}", p.chars().take(40).collect::<String>()));
+            }
+            _ => {}
+        }
+    }
+    found
+}
+
 fn both_hashes(ctx: &mut Ctx, setup: &mut Setup, fp: &FamParams, n_proofs: usize, extra_k: u32, seed: u64, poseidon: bool) {
-    run_case::<Blake2bState>(ctx, setup, "blake2b", fp, n_proofs, extra_k, seed);
+    run_case::<Blake2bState>(ctx, setup, "blake2b", fp, n_proofs, extra_k, seed, true);
     if poseidon {
-        run_case::<PoseidonState<F>>(ctx, setup, "poseidon", fp, n_proofs, extra_k, seed);
+        run_case::<PoseidonState<F>>(ctx, setup, "poseidon", fp, n_proofs, extra_k, seed, false);
     }
 }
 
@@ -251,6 +351,36 @@ fn main() {
     let inst_rot2 = FamParams { gates: vec![GateKind::InstRot, GateKind::LinRot], n_committed: 1, n_plain: 2, ..FamParams::default() };
     both_hashes(&mut ctx, &mut setup, &inst_rot2, 2, 0, 18, false);
 
+    // argument vectors at several domain sizes: additive-selector gate (trash argument), range and
+    // pair lookups (repeated inputs, leftover table rows), phase-1 column, unblinded column, copies
+    // between advice, constants and instance cells (several permutation column sets)
+    let args_member = FamParams {
+        n_adv0: 5,
+        n_adv1: 1,
+        unblinded: true,
+        n_committed: 1,
+        n_plain: 1,
+        gates: vec![GateKind::Additive, GateKind::Mul, GateKind::Chal],
+        lookups: vec![LookupKind::Range, LookupKind::Pair],
+        copies: true,
+        const_copies: true,
+        inst_copies: true,
+        steps: 10,
+        table_bits: 3,
+    };
+    for extra_k in 0..=2 {
+        run_case::<Blake2bState>(&mut ctx, &mut setup, "blake2b", &args_member, 1, extra_k, 19 + extra_k as u64, true);
+    }
+    // degree 3 (one permutation column per set) with an additive-selector gate only
+    let thin = FamParams { gates: vec![GateKind::Additive], n_committed: 0, n_plain: 1, steps: 5, ..FamParams::default() };
+    run_case::<Blake2bState>(&mut ctx, &mut setup, "blake2b", &thin, 2, 1, 23, true);
+
+    // lookup input outside the table: `permute_expression_pair` must return ConstraintSystemFailure
+    let lf = FamParams { gates: vec![GateKind::Mul], lookups: vec![LookupKind::Pair, LookupKind::Range], steps: 6, ..FamParams::default() };
+    let max_lf = if ctx.quick() { 4 } else { 12 };
+    let nf = lookup_failure_cases(&mut ctx, &mut setup, &lf, 24, max_lf);
+    ctx.count_n("lookup-failure-cases", nf as u64);
+
     let (n_random, search_cfgs) = match ctx.tier.as_str() {
         "quick" => (14, false),
         "thorough" => (150, true),
@@ -274,7 +404,7 @@ fn main() {
                     ] {
                         let n_adv1 = if gates.contains(&GateKind::Chal) { 1 } else { 0 };
                         let fp = FamParams { n_committed: nc, n_plain: npl, gates, lookups, n_adv1, steps: 3, ..FamParams::default() };
-                        run_case::<Blake2bState>(&mut ctx, &mut setup, "blake2b", &fp, np, 0, 7000 + (np * 100 + nc * 10 + npl) as u64);
+                        run_case::<Blake2bState>(&mut ctx, &mut setup, "blake2b", &fp, np, 0, 7000 + (np * 100 + nc * 10 + npl) as u64, np == 1);
                     }
                 }
             }
